@@ -12,6 +12,19 @@ CLAIMS = {
             "against the same actions, with the stream content recomputed by TLC from the offset function.",
             "Trusted: TLC, the proxy/driver harness/tlsdrv.c, reference X.509 writer. Scheduling of the two endpoint threads is explored only as far as the OS and the fragmenting proxy produce it.",
             "4/C08"),
+    "C09": ("model_checking",
+            "TLC model checking of Tls.tla over all credential-fact combinations (+ negative configs) + trace validation of live handshakes with defective credentials",
+            "TLC proves on the model that a verifier completes only for a valid chain and proven key possession (64 credential combinations x 3 protocols x auth modes, and that removing either check is caught); "
+            "live handshakes with credentials carrying exactly one defect each are validated against the same receive rules, so a verifier that completes with a defective peer has no explanation.",
+            "Trusted: TLC, harness/tlsdrv.c, tools/mkcreds.py (each credential set has exactly the named defect by construction with the reference SM2 signer / DER writer).",
+            "4/C09"),
+    "C10": ("fault_enumeration",
+            "TLC model checking of Tls.tla with a proxy adversary + replay of every enumerated fault on real handshakes, validated against TlsTrace.tla",
+            "The model's single-fault space (every record x drop/duplicate/swap/truncate/inject/flip, every point of three handshakes) is explored exhaustively by TLC with the invariant "
+            "'both complete => each consumed exactly what the other sent'; the same faults are applied by a record-aware proxy to real handshakes (quick: all record-level faults and one bit per plaintext byte; "
+            "thorough: every bit) and each execution must be explained by the contract with the invariant holding in every explaining state.",
+            "Trusted: TLC, the proxy (it logs the fault it effectively applied). Multi-fault schedules are explored in the model only.",
+            "4/C10"),
 }
 
 PENDING_REASON = "check under construction in this round (see DESIGN.md section 4); not claimed until it runs clean on the unchanged tree"
